@@ -170,7 +170,7 @@ def out_of_fragment(text, doc):
 
 def mutate13(rng, text):
     """Edits aimed at the modelled rules, in addition to c13.mutate."""
-    k = rng.randrange(9)
+    k = rng.randrange(10)
 
     def sub_random(pattern, repl):
         ms = list(re.finditer(pattern, text))
@@ -199,6 +199,18 @@ def mutate13(rng, text):
         return sub_random(r"\.\.\. on \w+", "...") if rng.random() < 0.5 else sub_random(r"\.\.\.(?= \{)", lambda m: "... on " + rng.choice(["T0", "I0", "U0", "T1"]))
     if k == 6:      # drop one argument
         return sub_random(r"\w+: (-?\d[\d.e]*|\"[^\"]*\"|true|false|null|\$\w+|[A-Z]+)(, )?(?=[\w)])", "")
+    if k == 9:      # a trailing (unused) variable definition of OneOf / input object / list type: whatever type information
+        #                 the traversal of the variable definitions leaves behind must not reach the usages
+        try:
+            from graphql import parse as _parse
+            from graphql.language import ast as _A
+            ops = [d for d in _parse(text).definitions if isinstance(d, _A.OperationDefinitionNode) and d.variable_definitions]
+            if not ops:
+                return None
+            end = rng.choice(ops).variable_definitions[-1].loc.end
+            return text[:end] + ", $vz: " + rng.choice(["Pick", "Pick", "In0", "[Int!]", "Pick!"]) + text[end:]
+        except Exception:  # noqa: BLE001
+            return None
     if k == 7:      # a spread of another fragment
         return sub_random(r"\.\.\.F\d+", lambda m: "...F" + str(rng.randrange(4)))
     return sub_random(r"(?<=\$)v\d+(?=[,)\] }])", lambda m: "v" + str(rng.randrange(4)))
